@@ -1539,15 +1539,30 @@ static Node *init_desg_expr(InitDesg *desg, Token *tok) {
   return new_unary(ND_DEREF, new_add(lhs, rhs, tok), tok);
 }
 
+// Joins expressions with comma operators, in order. The tree is
+// balanced, so that its depth stays small for arrays of any length.
+static Node *comma_tree(Node **items, int n, Token *tok) {
+  if (n == 0)
+    return new_node(ND_NULL_EXPR, tok);
+  if (n == 1)
+    return items[0];
+  return new_binary(ND_COMMA, comma_tree(items, n / 2, tok),
+                    comma_tree(items + n / 2, n - n / 2, tok), tok);
+}
+
 static Node *create_lvar_init(Initializer *init, Type *ty, InitDesg *desg, Token *tok) {
   if (ty->kind == TY_ARRAY) {
-    Node *node = new_node(ND_NULL_EXPR, tok);
+    // Elements without an initializer need no code: the object has
+    // been zero-cleared.
+    Node **items = calloc(ty->array_len + 1, sizeof(Node *));
+    int n = 0;
     for (int i = 0; i < ty->array_len; i++) {
       InitDesg desg2 = {desg, i};
       Node *rhs = create_lvar_init(init->children[i], ty->base, &desg2, tok);
-      node = new_binary(ND_COMMA, node, rhs, tok);
+      if (rhs->kind != ND_NULL_EXPR)
+        items[n++] = rhs;
     }
-    return node;
+    return comma_tree(items, n, tok);
   }
 
   if (ty->kind == TY_STRUCT && !init->expr) {
